@@ -29,6 +29,12 @@ CHECKS = {
         text="Seeded histories of absolute/relative seeks, counted reads, buffer reads and read_block on 1-3 file streams, arguments biased to every file boundary; after every operation returned bytes and reported position are compared with a plain byte-array model; fault runs assert exact-or-raises and re-synchronisation by an absolute seek.",
         note="Trusted: harness file encoder and byte model. Offsets aligned to the item size at 16/32 bit. Streams <= 192 samples.",
     ),
+    "C06": dict(
+        level="exploration", ref="DESIGN.md §4 C06",
+        technique="deterministic simulation: seeded streaming-reduction runs under two chunkings on a simulated disk with read faults vs in-memory reference definitions; ddmin replay",
+        text="Each streaming reduction (collapse, bandpass, read_chan, dedisperse, compute_stats, compute_stats_basic) is run under two seeded gulps on generated sub-ranges, depths, splits and DMs; results are compared with the definition on the selected samples (bit-exact where arithmetic is exact) and with each other. Fault runs (short read, EIO) assert raises-or-exact.",
+        note="Trusted: harness encoder and numpy definitions; delays from the library (C09). Integer-valued samples so float32 sums are exact. Files <= 200 samples, <= 16 channels, kernels on 1 thread.",
+    ),
     "C07": dict(
         level="exploration", ref="DESIGN.md §4 C07",
         technique="deterministic simulation: seeded streaming-transform runs on a simulated disk (chunking, sub-range, batch knobs; read faults, ENOSPC) vs whole-array reference definitions; ddmin replay",
